@@ -101,17 +101,25 @@ def compile_files(files, main, want=()):
         return rec
     sources = dict(files)
     if errors or ir is None:
+        if "modules" in want:
+            rec["modules"] = module_list(debug_info)
         rec.update(status="rejected", stage="front_end")
         _render(rec, errors, sources)
         rec["ir_none"] = ir is None
         rec["_errors"] = errors
         return rec
+    if "modules" in want:
+        rec["modules"] = module_list(debug_info)
     if "ir" in want:
         try:
-            rec["ir_json"] = ir_data_utils.IrDataSerializer(ir).to_json()
+            ir_json = ir_data_utils.IrDataSerializer(ir).to_json()
         except Exception as ex:
             rec.update(status="crash", stage="serialize", crash=crash_info(ex))
             return rec
+        rec["ir_sha"] = hashlib.sha1(ir_json.encode("utf-8", "surrogatepass")).hexdigest()
+        rec["ir_canon_sha"] = hashlib.sha1(canon_anon(ir_json).encode("utf-8", "surrogatepass")).hexdigest()
+        if "ir_full" in want:
+            rec["ir_json"] = ir_json
     try:
         header, errors = header_generator.generate_header(ir)
     except Exception as ex:
@@ -124,9 +132,21 @@ def compile_files(files, main, want=()):
         return rec
     rec.update(status="ok", stage="done")
     rec["header_sha"] = hashlib.sha1(header.encode("utf-8", "surrogatepass")).hexdigest()
+    rec["header_canon_sha"] = hashlib.sha1(canon_anon(header).encode("utf-8", "surrogatepass")).hexdigest()
     if "header" in want:
         rec["header"] = header
     return rec
+
+
+COLOR_NAMES = None
+
+
+def color_name(esc):
+    global COLOR_NAMES
+    if COLOR_NAMES is None:
+        from compiler.util import error
+        COLOR_NAMES = {getattr(error, n): n for n in ("BOLD", "BRIGHT_RED", "BRIGHT_YELLOW", "WHITE", "BRIGHT_GREEN")}
+    return COLOR_NAMES.get(esc, "?" + repr(esc))
 
 
 def _render(rec, errors, sources):
@@ -136,12 +156,76 @@ def _render(rec, errors, sources):
     except Exception as ex:
         rec.update(status="crash", stage="messages", crash=crash_info(ex))
         return
+    # the (colour, text) parts of the first few messages, for the replay through the Coq model
+    parts = []
+    try:
+        for g in errors[:3]:
+            for m in g[:3]:
+                parts.append([[color_name(c), t] for c, t in m.format(sources)])
+        rec["parts"] = parts
+    except Exception as ex:
+        rec.update(status="crash", stage="format_errors", crash=crash_info(ex))
+        return
     for key, src in (("formatted", sources), ("formatted_nosrc", {})):
         try:
             rec[key] = error.format_errors(errors, src)
         except Exception as ex:
             rec.update(status="crash", stage="format_errors", crash=crash_info(ex))
             return
+
+
+_ANON = None
+
+
+def canon_anon(text):
+    """Renumber emboss_reserved_anonymous_field_N / EmbossReservedAnonymousFieldN by first appearance."""
+    global _ANON
+    import re
+    if _ANON is None:
+        _ANON = re.compile(r"(emboss_reserved_anonymous_field_|EmbossReservedAnonymousField)(\d+)")
+    order = {}
+
+    def sub(m):
+        n = m.group(2)
+        if n not in order:
+            order[n] = len(order) + 1
+        return m.group(1) + "#%d" % order[n]
+    return _ANON.sub(sub, text)
+
+
+def module_list(debug_info):
+    """The modules visited by only_parse_emboss_file, in order, with the numbers of their anonymous fields."""
+    import re
+    from compiler.util import ir_data_utils
+    out = []
+    if debug_info is None:
+        return out
+    for fname, mdi in debug_info.modules.items():
+        src = mdi.source_code if mdi.source_code is not None else ""
+        e = {"file": fname, "src_sha": hashlib.sha1((src + "\0" + fname).encode("utf-8", "surrogatepass")).hexdigest()[:16],
+             "parsed": mdi.ir is not None, "anon": []}
+        if mdi.ir is not None:
+            js = ir_data_utils.IrDataSerializer(mdi.ir).to_json()
+            e["anon"] = sorted({int(x) for x in re.findall(r"emboss_reserved_anonymous_field_(\d+)", js)})
+        out.append(e)
+    return out
+
+
+def lr1_probe():
+    """F11: lr1 on a cyclic grammar (conflict count or assertion, per hash seed)."""
+    from compiler.front_end import lr1
+    from compiler.util import parser_types
+    P = parser_types.Production.parse
+    out = {}
+    for name, start, prods in [("cyclic", "S", ["S -> A", "S -> a", "A -> S"]),
+                               ("ambiguous", "E", ["E -> E plus E", "E -> n"]),
+                               ("plain", "S", ["S -> a S b", "S ->"])]:
+        try:
+            p = lr1.Grammar(start, [P(x) for x in prods]).parser()
+            out[name] = {"conflicts": len(p.conflicts), "states": len(p.action)}
+        except Exception as ex:
+            out[name] = {"exception": crash_info(ex)}
+    return out
 
 
 def strip(rec):
@@ -168,10 +252,20 @@ def main(argv):
     job = json.load(open(argv[1], encoding="utf-8"))
     want = job.get("want", [])
     res = {"hashseed": os.environ.get("PYTHONHASHSEED"), "runs": []}
+    if "lr1" in want:
+        res["lr1"] = lr1_probe()
+    if "parser_tables" in want:
+        from compiler.front_end import make_parser, generate_cached_parser
+        p = make_parser.build_expression_parser()
+        res["expression_parser_sha"] = hashlib.sha1(generate_cached_parser.as_py_source(p, "expression_parser").encode()).hexdigest() \
+            if hasattr(generate_cached_parser, "as_py_source") else None
+    shared = job.get("shared", {})
     for rep in range(job.get("repeat", 1)):
         run = []
         for j in job["jobs"]:
-            r = strip(compile_files(j["files"], j["main"], want))
+            files = dict(shared) if j.get("shared") else {}
+            files.update(j["files"])
+            r = strip(compile_files(files, j["main"], want))
             r["id"] = j.get("id")
             if "state" in want:
                 r["state"] = state_snapshot()
